@@ -45,6 +45,8 @@ type Case struct {
 	// CPAt switches the cutting-planes strategy on: 0 never, 1 right after New, k > 1 just before the (k-1)-th operation
 	// of the history (an exported field of the solver, which a caller may set at any time between two calls).
 	CPAt int `json:"cp_at,omitempty"`
+	// Entry (front slicenb): "" ParseSliceNb, "cnf" / "cnf-commented" ParseCNF of a DIMACS rendering of the base
+	Entry string `json:"entry,omitempty"`
 }
 
 func baseSems(c Case) []oracle.Constr {
@@ -73,7 +75,15 @@ func check(c Case, o *vf.Obs) error {
 	var pb *solver.Problem
 	switch c.Front {
 	case "slicenb":
-		pb = solver.ParseSliceNb(oracle.CloneCNF(c.Clauses), c.N)
+		if c.Entry == "" {
+			pb = solver.ParseSliceNb(oracle.CloneCNF(c.Clauses), c.N)
+		} else {
+			var err error
+			if pb, err = gs.ParseCNFProblem(c.Entry, c.N, c.Clauses); err != nil {
+				return fmt.Errorf("parse error on a well-formed DIMACS text: %v", err)
+			}
+			o.Class("base-entry-" + c.Entry)
+		}
 	case "card":
 		pb = solver.ParseCardConstrs(gs.CardConstrsOf(c.Constrs))
 	case "pb":
@@ -288,6 +298,9 @@ func genCase(front string) func(t *rapid.T) Case {
 	inner := genCase0(front)
 	return func(t *rapid.T) Case {
 		c := inner(t)
+		if c.Front == "slicenb" {
+			c.Entry = rapid.SampledFrom([]string{"", "", "cnf", "cnf-commented"}).Draw(t, "entry")
+		}
 		if gen.Chance(t, 1, 4, "cp") {
 			c.CPAt = 1
 			if rapid.Bool().Draw(t, "late") {
